@@ -672,8 +672,15 @@ R13_REVIEWED = {
 def r13(ctx, rep):
     rep.rule("C10.R13", "the default PL folder visits every sub-expression: a name in a part that is skipped is never resolved, so an unknown or out-of-scope name there is accepted", floor=30)
     syn = ctx.syn
-    carrying, adts = pl_carrying(syn)
     fns = [f for f in syn.fns if f["crate"] == "prqlc" and f["file"].endswith("ir/pl/fold.rs") and f["name"].startswith("fold_") and "body" in f and not f.get("trait_default") and not f.get("self_short")]
+    n_fields = fold_audit(ctx, rep, fns)
+    rep.check(n_fields >= 25, "sites", f"expected the default folders of ir/pl/fold.rs (fold_expr_kind, fold_func_call, fold_transform_kind ..), found {n_fields} expression-carrying fields / variants in {len(fns)} functions")
+
+
+def fold_audit(ctx, rep, fns, consequence="names inside it are never resolved", parts=("drops", "structs", "arms")):
+    """every expression-carrying part of what `fns` rebuild goes through the folder; -> number of parts examined"""
+    syn = ctx.syn
+    carrying, adts = pl_carrying(syn)
 
     def folded(expr):
         for n in walk(expr):
@@ -713,12 +720,12 @@ def r13(ctx, rep):
     for f in fns:
         # (a) nothing is dropped from a collection on its way through the folder
         for n in walk(f["body"]):
-            if n.get("k") == "mcall" and n["m"] in DROPPING:
+            if "drops" in parts and n.get("k") == "mcall" and n["m"] in DROPPING:
                 rep.bad(f"drops:{f['name']}:{n['m']}", f"{f['name']} passes a collection through `.{n['m']}(..)`: the elements it removes are never folded (resolved), so an unknown name inside them is accepted "
                         "and the element silently disappears", file=f["file"], line=n["l"], fn=f["path"])
         # (b) rebuilt structs: every expression-carrying field goes through the folder
         for n in walk(f["body"]):
-            if n.get("k") != "struct":
+            if n.get("k") != "struct" or "structs" not in parts:
                 continue
             name = last_seg(n["p"])
             fields = owner = None
@@ -737,15 +744,14 @@ def r13(ctx, rep):
                 if ty is None or not carries([ty]):
                     continue
                 n_fields += 1
-                rep.check(folded(fval), f"field:{f['name']}:{owner}.{fname}", f"{f['name']} rebuilds {owner}.{fname} ({ty}) as `{show(fval, maxdepth=5)}` without passing it through the folder: names inside it "
-                          "are never resolved", file=f["file"], line=n["l"], fn=f["path"])
+                rep.check(folded(fval), f"field:{f['name']}:{owner}.{fname}", f"{f['name']} rebuilds {owner}.{fname} ({ty}) as `{show(fval, maxdepth=5)}` without passing it through the folder: " + consequence, file=f["file"], line=n["l"], fn=f["path"])
             if isinstance(rest, dict):
                 given = {x[0] for x in n["f"]}
                 skipped = [k_ for k_, t_ in fields.items() if k_ not in given and carries([t_]) and f"{owner}.{k_}" not in R13_REVIEWED]
                 rep.check(not skipped, f"rest:{f['name']}:{owner}", f"{f['name']} copies {skipped} of {owner} with `..{show(rest)}`: expression-carrying fields that are not folded", file=f["file"], line=n["l"], fn=f["path"])
         # (c) matches over the folded value: an arm of a variant with an expression payload folds it and takes the variant whole (no refutable
         #     sub-pattern that sends some of its values to an arm that returns them as they are)
-        for m in matches_of(f["body"]):
+        for m in (matches_of(f["body"]) if "arms" in parts else []):
             covered = set()
             for arm in m["arms"]:
                 for alt in pat_alts(arm["pat"]):
@@ -781,7 +787,7 @@ def r13(ctx, rep):
                         rep.check(ok, key + ":partial", f"{f['name']} takes only some values of {a_['name']}::{vname} (`{show(arm['pat'], maxdepth=6)}`"
                                   f"{' if ' + show(arm['guard']) if arm.get('guard') is not None else ''}); the others must reach an arm that folds them too, found "
                                   f"{[show(b['body'], maxdepth=4)[:40] for b in later]}", file=f["file"], line=arm["l"], fn=f["path"])
-    rep.check(n_fields >= 25, "sites", f"expected the default folders of ir/pl/fold.rs (fold_expr_kind, fold_func_call, fold_transform_kind ..), found {n_fields} expression-carrying fields / variants in {len(fns)} functions")
+    return n_fields
 
 
 def r14(ctx, rep):
